@@ -118,6 +118,10 @@ class Str:
             return "<%s>" % self.parts[0]
         if self.kind == "raw":
             return "<raw %s>" % self.parts[0]
+        if self.kind == "esc":
+            return "esc(%r)" % (self.parts[0],)
+        if self.kind == "num":
+            return "num(%r)" % (self.parts[0],)
         if self.kind == "cat":
             return "".join(p if isinstance(p, str) else repr(p) for p in self.parts)
         if self.kind == "join":
@@ -1422,11 +1426,51 @@ class Interp:
                         return a % tuple(conc)
                     except (TypeError, ValueError):
                         raise PyRaise("TypeError", node)
+                sym = self._symbolic_percent(a, vals)
+                if sym is not None:
+                    return sym
             return Str("opaque", ("fmt",))
         if isinstance(op, (ast.BitAnd, ast.BitOr)):
             x, y = self.truth(a), self.truth(b)
             return (x and y) if isinstance(op, ast.BitAnd) else (x or y)
         raise Undecided("binary op %s" % type(op).__name__)
+
+    def _symbolic_percent(self, fmt: str, vals):
+        """'%s'-formatting with symbolic string arguments: the result is the concatenation of the literal pieces and
+        the arguments (only plain %s / %d slots; anything else stays opaque)."""
+        import re as _re
+
+        pieces = _re.split(r"(%[sd%])", fmt)
+        if "%" in "".join(p for p in pieces if not _re.fullmatch(r"%[sd%]", p)):
+            return None
+        out, k = [], 0
+        for p in pieces:
+            if p == "%%":
+                out.append("%")
+            elif p in ("%s", "%d"):
+                if k >= len(vals):
+                    raise PyRaise("TypeError")
+                v = vals[k]
+                k += 1
+                if isinstance(v, str):
+                    if p == "%d":
+                        raise PyRaise("TypeError")
+                    out.append(v)
+                elif isinstance(v, Str):
+                    if p == "%d":
+                        return None
+                    out.append(v)
+                elif isinstance(v, Lin) and v.is_const() and v.const.denominator == 1 and not getattr(v, "is_float", False):
+                    out.append(str(int(v.const)))
+                elif isinstance(v, bool) or v is None:
+                    out.append(str(v))
+                else:
+                    return None
+            else:
+                out.append(p)
+        if k != len(vals):
+            raise PyRaise("TypeError")
+        return mkcat(out)
 
     def e_Call(self, e, env):
         f = e.func
@@ -1868,6 +1912,12 @@ class Interp:
                 return Str("strip", (recv,))
             if m == "join":
                 return mkjoin(recv, self.iterate(args[0]))
+            if m == "replace" and args == ['"', '""']:
+                # quote doubling of a symbolic text: every quote of the argument becomes a pair
+                if recv.kind in ("var", "raw"):
+                    return Str("esc", (recv,))
+                if recv.kind == "cat":
+                    return mkcat([p.replace('"', '""') if isinstance(p, str) else self._str_method("replace", p, args, kwargs, node) for p in recv.parts])
         raise Undecided("str.%s on %r" % (m, recv))
 
     def deepcopy(self, v):
